@@ -88,7 +88,7 @@ class Run(object):
         from clikit.formatter import AnsiFormatter, PlainFormatter
         from clikit.ui.components import progress_bar as pbmod
 
-        os.environ["COLUMNS"] = "120"
+        os.environ["COLUMNS"] = str(cfg.get("columns", 120))
         self.cfg = cfg
         self.clock = vclock.Clock()
         pbmod.time = vclock.FakeTime(self.clock)
@@ -96,6 +96,11 @@ class Run(object):
         kind = cfg["out"]
         fmt = PlainFormatter() if kind in ("plain", "plain-section") else AnsiFormatter(forced=True)
         out = Output(self.stream, fmt)
+        self.header = None
+        if kind == "section" and not cfg.get("quiet"):
+            # something stands above the section: a redraw that moves the cursor too far up would erase it
+            self.header = "HEADER"
+            out.write_line(self.header)
         if kind in ("section", "plain-section"):
             out = out.section()
         out.set_verbosity(cfg.get("verbosity", 0))
@@ -287,7 +292,7 @@ def run_case(ctx, part, case, by_construction=False):
                     break
         # the screen shows exactly the latest frame
         if not plain:
-            t = term.Terminal(120)
+            t = term.Terminal(cfg.get("columns", 120))
             try:
                 t.feed(run.stream.fetch())
             except term.Unmodelled as e:
@@ -295,9 +300,12 @@ def run_case(ctx, part, case, by_construction=False):
 
                 raise HarnessError("terminal emulator: %s" % e)
             screen = t.lines()
-            want = [] if not run.latest else [l.rstrip(" ") for l in run.latest.split("\n")]
+            want = [] if not run.latest else [c.rstrip(" ") for l in run.latest.split("\n")
+                                              for c in (term.chunk(l.rstrip(" "), cfg.get("columns", 120)) or [""])]
             while want and want[-1] == "":
                 want.pop()
+            if run.header:
+                want = [run.header] + want
             if screen != want:
                 fail("C16.screen", want, {"op": i, "screen": screen}, sig="residue" if run.nt else "screen")
                 return
@@ -353,6 +361,7 @@ ENUM_CFGS = [
     {"max": 10, "width": 8, "min": 0.1, "out": "plain", "format": None},
     {"max": 0, "width": 4, "min": 0, "out": "plain", "format": "F2"},
     {"max": 3, "width": 8, "min": 0.1, "out": "section", "format": None},
+    {"max": 10, "width": 6, "min": 0, "out": "section", "format": None, "columns": 20},
     {"max": 3, "width": 6, "min": 0, "out": "plain-section", "format": None},
     {"max": 10, "width": 8, "min": 0, "out": "ansi", "format": None, "quiet": True},
     {"max": 3, "width": 3, "min": 0.1, "out": "ansi", "format": "F3"},
@@ -379,6 +388,15 @@ def shard_pairs(ctx, arg):
             check_pair(ctx, {"max": mx, "step": step}, True)
 
 
+def fit_columns(cfg):
+    """For a quarter of the default-format bars with maximum 10 the terminal is made exactly as wide as the frame
+    (14 + bar width columns): a frame that fills the row exactly is the boundary of the row accounting."""
+    if cfg["max"] == 10 and not cfg["format"] and cfg["verbosity"] == 0 and cfg["width"] % 4 == 0 \
+            and cfg["out"] == "section":  # (only a section accounts for frames that fill or exceed a row)
+        cfg = dict(cfg, columns=14 + cfg["width"])
+    return cfg
+
+
 def random_case():
     cfg = st.fixed_dictionaries({
         "max": st.sampled_from([0, 1, 3, 10, 50, 200]),
@@ -392,7 +410,7 @@ def random_case():
         "min_via_setter": st.booleans(),
         "redraw_freq": st.sampled_from([None, None, 1, 3]),
         "max_between": st.sampled_from([None, None, 0.05, 5]),
-    })
+    }).map(fit_columns)
     op = st.one_of(
         st.just(["start"]), st.tuples(st.just("start"), st.sampled_from([1, 5, 20])).map(list),
         st.tuples(st.just("advance"), st.sampled_from([1, 1, 1, 2, 7, -1])).map(list),
